@@ -19,8 +19,9 @@ package handlers
 //@   pure
 //@   ensures username == uf("basicauth.user", string, r) && password == uf("basicauth.pwd", string, r) && ok == uf("basicauth.ok", bool, r)
 //@ extern (net/http.Header).Set(h, key, value)
-//@   modifies headerVal(h, key)
-//@   ensures headerVal(h, key) == value
+//@   requires h != nil
+//@   modifies h[key], headerVal(h, key)
+//@   ensures key in h && len(h[key]) == 1 && h[key][0] == value && headerVal(h, key) == value && fresh(arr(h[key]))
 //@ extern (net/http.Header).Get(h, key) (v)
 //@   pure
 //@   ensures v == uf("header.get", string, h, key)
@@ -55,7 +56,7 @@ package handlers
 //
 //@ func HTTPBasicAuth$1 [C20]
 //@   requires c != nil && c.Req != nil && respBound(c) && wInv(&c.writer) && !aborted(c) && c.index < 63
-//@   modifies c.index, aborted(c), c.data, entries(c.data), c.writer.status, c.writer.length, headerVal(_, _)
+//@   modifies c.index, aborted(c), c.data, entries(c.data), c.writer.status, c.writer.length, headerVal(_, _), allentries(http.Header)
 //@   modifies hdrCalls(c.writer.Writer), hdrStatus(c.writer.Writer), body(c.writer.Writer), early(c.writer.Writer)
 //@   ensures gate: !aborted(c) <==> (baOK(c) && (len(accounts) <= 0 || (baUser(c) in accounts && accounts[baUser(c)] == baPwd(c))))
 //@   ensures cursor_follows: aborted(c) ==> c.index == 63
